@@ -31,9 +31,17 @@ def build_replay():
     if 'bin' in _built:
         return _built['bin']
     try:
-        shutil.copy(os.path.join(REPO, 'Cargo.lock'), os.path.join(ROOT, 'replay', 'Cargo.lock'))
+        rdir = os.path.join(ROOT, 'replay')
+        if REPO != '/repo':
+            # development only (VERIF_REPO): a copy of the probe crate that depends on that tree instead of /repo
+            rdir = os.path.join(BUILD_DIR, 'replay-src')
+            shutil.rmtree(rdir, ignore_errors=True)
+            shutil.copytree(os.path.join(ROOT, 'replay'), rdir, ignore=shutil.ignore_patterns('target'))
+            m = open(os.path.join(rdir, 'Cargo.toml')).read().replace('path = "/repo"', 'path = "%s"' % REPO)
+            open(os.path.join(rdir, 'Cargo.toml'), 'w').write(m)
+        shutil.copy(os.path.join(REPO, 'Cargo.lock'), os.path.join(rdir, 'Cargo.lock'))
         env = dict(os.environ, CARGO_NET_OFFLINE='true')
-        p = subprocess.run(['cargo', 'build', '--offline', '--quiet', '--manifest-path', os.path.join(ROOT, 'replay', 'Cargo.toml'),
+        p = subprocess.run(['cargo', 'build', '--offline', '--quiet', '--manifest-path', os.path.join(rdir, 'Cargo.toml'),
                             '--target-dir', TARGET], capture_output=True, text=True, env=env, timeout=900)
         exe = os.path.join(TARGET, 'debug', 'redo-replay')
         _built['bin'] = exe if p.returncode == 0 and os.path.exists(exe) else None
